@@ -208,6 +208,10 @@ def extended_format_ternary_op(
         ):
             arg2 = get_instruction_arg(stack_inst2, stack_inst2.argrepr)
             k = skip_cache(instructions, j + 1)
+            if k + 1 >= len(instructions):
+                # The three operands are the first things the code object
+                # does: there is nothing before them to look at.
+                return "", None
             stack_inst3 = instructions[k + 1]
             start_offset = stack_inst3.start_offset
             if (
